@@ -2,7 +2,8 @@
 streams are run, through which view they are compared and which checker is applied."""
 
 TIE_THEOREMS = ["tie_codes", "tie_codes_table", "tie_no_extra", "tie_codes_nodup", "tie_broadcast"]
-TIE_GUARD_THEOREMS = ["tie_guards", "tie_decoder_codes", "tie_encoder_codes"]
+# further source ties: vo target -> theorems
+TIE_EXTRA = {"Generated/TieGuards": ["tie_guards"], "Generated/TieDecCodes": ["tie_decoder_codes"], "Generated/TieEncCodes": ["tie_encoder_codes"]}
 
 EV = dict(stream="EV", module="RP.Glue.StreamEV")
 
@@ -251,7 +252,7 @@ PROPS = {
         rule=RULE_FR + "; " + RULE_USD,
     ),
     "C05": dict(
-        vfiles=["Props/C05"], tie_guards=True,
+        vfiles=["Props/C05"], tie_extra=["Generated/TieGuards"],
         technique="Coq proof by case analysis over the 16 decoders and the shape of the payload (sub-value decoders characterised by lemmas), against an independently written specification of lengths and rejection reasons; correspondence on generated malformed and valid packets",
         level_text="Theorem C05_exact: for every kind and every packet of bytes the decoder returns a value or an error value (never panics); a value only for a "
                    "non-error packet with the kind's code and exactly the layout's length, in the domain and stable under re-encoding; every reported rejection "
@@ -262,7 +263,7 @@ PROPS = {
         assumptions=["BcmValue::Binary decodes any non-zero flag byte as true: inside the domain and stable under re-encoding, so not a violation (DESIGN.md section 9.1)"],
     ),
     "C11": dict(
-        vfiles=["Props/C11"], tie=True, tie_guards=True,
+        vfiles=["Props/C11"], tie=True, tie_extra=["Generated/TieEncCodes"],
         technique="Coq proof that every encoder equals an independently written table-driven layout serialiser, and that an independently written strict reference decoder inverts that layout (so the decoders agree with it); event codes re-translated from the source and the tie re-proved each run; correspondence on generated events/packets",
         level_text="Theorems C11_encode_layout (encode e = layout_encode e for every well-formed event), C11_codes (the code table), C11_ref_sound and C11_decode_agrees "
                    "(whenever the reference decoder accepts a packet, the decoder returns the same value). Generated/Tie.v re-proves on every run that the event "
@@ -273,7 +274,7 @@ PROPS = {
         assumptions=["MessageValue padding bytes are unspecified and masked to zero on the implementation side", "little-endian host for the MessageValue image"],
     ),
     "C12": dict(
-        vfiles=["Props/C12"], tie=True, tie_guards=True,
+        vfiles=["Props/C12"], tie=True, tie_extra=["Generated/TieDecCodes"],
         technique="Coq proof: acceptance by any decoder forces the packet's leading code to equal the kind's code, and the code table is injective (also re-proved NoDup over the constants re-read from the source); correspondence on the 16-decoder acceptance vector",
         level_text="Theorems C12_unique (for ANY packet at most one of the 16 decoders returns a value), C12_cross (the encoding of an event is rejected with an error "
                    "value by each of the 15 other decoders), C12_codes_injective; Generated/Tie.v re-proves pairwise distinctness of the codes as the source states them.",
